@@ -184,7 +184,12 @@ func Run(t *testing.T, cfg Config) {
 		wi.Flush()
 		wm.Flush()
 	}
+	curPath := filepath.Join(out, "current"+suffix)
 	safeExec := func(c *Case) {
+		// the case in hand is left on disk: if the process dies (a panic in a goroutine of the code under
+		// test cannot be recovered) the driver finds the input that killed it
+		_ = os.WriteFile(curPath, []byte(fmt.Sprintf("#case %d\n%s\n", c.Idx, strings.Join(c.In, "\n"))), 0o644)
+		defer os.Remove(curPath)
 		defer func() {
 			if r := recover(); r != nil {
 				c.Tag("panic")
